@@ -194,7 +194,7 @@ class Executor(ExprMixin, CallMixin, ContractMixin, StmtMixin):
 
 
 def global_axioms(used_classes, reg):
-    ax = CLASSES.axioms(set(used_classes) | {"object", "int", "bool", "str", "list", "tuple", "dict", "NoneType"})
+    ax = CLASSES.axioms(set(used_classes) | {"object", "int", "bool", "str", "list", "tuple", "dict", "NoneType", "MarkerObject"})
     ax += CONSTS.axioms()
     a, b = z3.Consts("pa pb", V)
     ax += Q.global_axioms()
